@@ -353,6 +353,12 @@ func runSignScenario(w *World, tier string, prop string) (bool, interface{}) {
 				prev = append(prev, em.Payload)
 			}
 		}
+		if !ok && prop == "C07" && faulty < 0 && !w.Failed() {
+			// the random schedule ran into its step cap: judge only after a
+			// fault-free round-robin phase (bounded liveness, not luck)
+			c.L.Quiesce(12)
+			ok = c.Tr.AllHaveBatch(bi, members) && c.AllInState(round, StIdle, members)
+		}
 		if !ok && len(bi.Msgs) > 0 && prop == "C07" && !w.Failed() {
 			w.Fail(prop, "batch-not-reconstructed", fmt.Sprintf("batch #%d (%s), correctly answered by %d >= t=%d participants, is not stored by every node / round not idle (states %v)", b, d, len(bi.Answered), t, states(c, round)))
 		}
